@@ -238,7 +238,7 @@ def check(c, tier, replay):
         return
     thorough = tier == 'thorough'
     # S1 ---------------------------------------------------------------------------------
-    geos = [(1, 2, 3), (2, 2, 3), (3, 1, 3)] if not thorough else [(1, 2, 4), (1, 3, 4), (2, 1, 4), (2, 2, 4), (2, 3, 3), (3, 1, 4), (3, 2, 3), (4, 1, 3)]
+    geos = [(1, 2, 3), (2, 2, 3), (3, 1, 3)] if not thorough else [(1, 2, 4), (1, 3, 4), (2, 1, 4), (2, 2, 4), (2, 3, 3), (3, 1, 3), (3, 2, 3), (4, 1, 3)]
     for pn, pbl, mo in geos:
         r = c.model_check('Window_MC', cfg_text=mc_cfg(pn, pbl, mo), workers=8, timeout=1500)
         if not r.completed:
@@ -256,7 +256,7 @@ def check(c, tier, replay):
             raise MachineryError('scenario generation failed: %s' % r.error)
         hs = r.json_prints()
         keep = maximal(hs)
-        cap = 2500 if not thorough else 60000
+        cap = 2500 if not thorough else 12000
         if len(keep) > cap:     # seeded sample of the transition cover
             keep = c.rng.sample(keep, cap)
         unit = {0: 1, 1: 250, 2: 500}[len(scns) % 3]
